@@ -841,47 +841,78 @@ func c01R8(c *Ctx) {
 		flagF := c.Field(r, pFunnel, "RecordStatus", "Flag")
 		ackConst := c.W.LookupObj(pFunnel, "RecordFlagAck")
 		nInc := 0
-		for _, b := range sd.Blocks {
-			for _, in := range b.Instrs {
-				ph, ok := in.(*ssa.Phi)
-				if !ok {
-					continue
-				}
-				isRet := false
-				for _, ret := range kit.Returns(sd) {
-					if len(ret.Results) == 2 && kit.RetVal(ret, 0) == ssa.Value(ph) {
-						isRet = true
-					}
-				}
-				if !isRet {
-					continue
-				}
-				for _, e := range ph.Edges {
-					inc, ok := e.(*ssa.BinOp)
-					if !ok || inc.Op != token.ADD {
+		var counterIn func(f *ssa.Function, nres int)
+		counterIn = func(f *ssa.Function, nres int) {
+			for _, b := range f.Blocks {
+				for _, in := range b.Instrs {
+					ph, ok := in.(*ssa.Phi)
+					if !ok {
 						continue
 					}
-					nInc++
-					gp := kit.NewGates().AddEdges(kit.CmpEdges(sd, func(b *ssa.BinOp) (bool, bool) {
-						if b.Op != token.EQL && b.Op != token.NEQ {
-							return false, false
+					isRet := false
+					for _, ret := range kit.Returns(f) {
+						if len(ret.Results) == nres && kit.RetVal(ret, 0) == ssa.Value(ph) {
+							isRet = true
 						}
-						x, y := b.X, b.Y
-						if isConstObj(x, ackConst) {
-							x, y = y, x
+					}
+					if !isRet {
+						continue
+					}
+					for _, e := range ph.Edges {
+						inc, ok := e.(*ssa.BinOp)
+						if !ok || inc.Op != token.ADD {
+							continue
 						}
-						if !isConstObj(y, ackConst) || !kit.IsFieldLoad(x, flagF) {
-							return false, false
-						}
-						base, _ := kit.FieldBase(x)
-						ia, ok := base.(*ssa.IndexAddr)
-						if !ok || ia.Index != ssa.Value(ph) {
-							return false, false
-						}
-						return true, b.Op == token.EQL
-					}), "recordStatuses[count].Flag == RecordFlagAck")
-					c.Dominated(r, "v2 sendToDLQ: stored count is the acked PREFIX length", []ssa.Instruction{inc}, gp, "the recordStatuses[count].Flag==RecordFlagAck edge indexed by the count itself")
+						nInc++
+						gp := kit.NewGates().AddEdges(kit.CmpEdges(f, func(b *ssa.BinOp) (bool, bool) {
+							if b.Op != token.EQL && b.Op != token.NEQ {
+								return false, false
+							}
+							x, y := b.X, b.Y
+							if isConstObj(x, ackConst) {
+								x, y = y, x
+							}
+							if !isConstObj(y, ackConst) || !kit.IsFieldLoad(x, flagF) {
+								return false, false
+							}
+							base, _ := kit.FieldBase(x)
+							ia, ok := base.(*ssa.IndexAddr)
+							if !ok || ia.Index != ssa.Value(ph) {
+								return false, false
+							}
+							return true, b.Op == token.EQL
+						}), "recordStatuses[count].Flag == RecordFlagAck")
+						c.Dominated(r, "v2 sendToDLQ: stored count is the acked PREFIX length", []ssa.Instruction{inc}, gp, "the recordStatuses[count].Flag==RecordFlagAck edge indexed by the count itself")
+					}
 				}
+			}
+		}
+		counterIn(sd, 2)
+		if nInc == 0 {
+			// the counting loop may live in a helper whose result is returned as the count
+			seenH := map[*ssa.Function]bool{}
+			for _, ret := range kit.Returns(sd) {
+				if len(ret.Results) != 2 {
+					continue
+				}
+				var visit func(v ssa.Value, d int)
+				visit = func(v ssa.Value, d int) {
+					if d > 4 {
+						return
+					}
+					switch x := v.(type) {
+					case *ssa.Phi:
+						for _, e := range x.Edges {
+							visit(e, d+1)
+						}
+					case *ssa.Call:
+						if h := x.Call.StaticCallee(); h != nil && h.Pkg == sd.Pkg && len(h.Blocks) > 0 && h.Signature.Results().Len() == 1 && !seenH[h] {
+							seenH[h] = true
+							counterIn(h, 1)
+						}
+					}
+				}
+				visit(kit.RetVal(ret, 0), 0)
 			}
 		}
 		if nInc == 0 {
